@@ -68,15 +68,31 @@ def wrap_helper(fn: ast.FunctionDef) -> bool:
     return False
 
 
+def _index_of(target, it):
+    """loop variable that runs over 0 .. N-1 and the text of N:  `for i in range(N)`  /  `for i, x in enumerate(X)`"""
+    if isinstance(target, ast.Name):
+        return target.id, it
+    if isinstance(target, ast.Tuple) and len(target.elts) == 2 and isinstance(target.elts[0], ast.Name) \
+            and isinstance(it, ast.Call) and isinstance(it.func, ast.Name) and it.func.id == "enumerate" and len(it.args) == 1:
+        # enumerate(X): the index ranges over range(len(X))
+        rng = ast.Call(func=ast.Name(id="range", ctx=ast.Load()),
+                       args=[ast.Call(func=ast.Name(id="len", ctx=ast.Load()), args=[it.args[0]], keywords=[])], keywords=[])
+        return target.elts[0].id, ast.copy_location(rng, it)
+    return None, it
+
+
 def _loops(fi: FunctionInfo):
-    """(node, var, iter call, body nodes) for statement loops and comprehension generators over range(...)"""
+    """(node, index var, range call, body nodes) for statement loops and comprehension generators over range(...) / enumerate(...)"""
     for n in walk_local(fi.node):
-        if isinstance(n, ast.For) and isinstance(n.target, ast.Name):
-            yield n, n.target.id, n.iter, list(n.body)
+        if isinstance(n, ast.For):
+            i, it = _index_of(n.target, n.iter)
+            if i is not None:
+                yield n, i, it, list(n.body)
         elif isinstance(n, (ast.ListComp, ast.SetComp, ast.GeneratorExp)):
             for g in n.generators:
-                if isinstance(g.target, ast.Name):
-                    yield n, g.target.id, g.iter, [n.elt] + list(g.ifs)
+                i, it = _index_of(g.target, g.iter)
+                if i is not None:
+                    yield n, i, it, [n.elt] + list(g.ifs)
 
 
 def cycle_loops(fi: FunctionInfo, ctx=None) -> List[Dict]:
@@ -105,11 +121,7 @@ def cycle_loops(fi: FunctionInfo, ctx=None) -> List[Dict]:
 
     # pairing idiom:  for p, q in zip(X, X[1:] + X[:1])  -- consecutive elements of X, closing pair included
     for zl in walk_local(fi.node):
-        it = None
-        if isinstance(zl, ast.For):
-            it = zl.iter
-        elif isinstance(zl, ast.comprehension):
-            it = zl.iter
+        it = zl if isinstance(zl, ast.Call) else None
         if not (isinstance(it, ast.Call) and isinstance(it.func, ast.Name) and it.func.id == "zip" and len(it.args) == 2):
             continue
         X = norm(it.args[0])
@@ -131,7 +143,7 @@ def cycle_loops(fi: FunctionInfo, ctx=None) -> List[Dict]:
                 and shifted(second.right, None, 1)):
             problems.append("`%s` pairs the elements of `%s` with `%s`, which is not the rotation X[1:] + X[:1]: the closing pair "
                             "(last, first) or some other pair is not visited" % (txt(it), X, txt(second)))
-        out.append({"loop": zl if isinstance(zl, ast.For) else it, "var": "pair", "range": txt(it), "flows": 1, "problems": problems,
+        out.append({"loop": it, "var": "pair", "range": txt(it), "flows": 1, "problems": problems,
                     "idiom": "zip with rotation"})
     for loop, i, it, body in _loops(fi):
         if not (isinstance(it, ast.Call) and isinstance(it.func, ast.Name) and it.func.id == "range"):
@@ -211,11 +223,27 @@ def cycle_loops(fi: FunctionInfo, ctx=None) -> List[Dict]:
 
 def check_cycles(ctx, res, fi: FunctionInfo, rule: str) -> int:
     recs = cycle_loops(fi, ctx)
+    # the walk over the cycle may live in private helper methods of the same object (`self._inside_all_edges(p)`)
+    seen = {fi.qual}
+    todo = [fi]
+    while todo:
+        f = todo.pop()
+        for c in walk_local(f.node):
+            if isinstance(c, ast.Call) and isinstance(c.func, ast.Attribute) and isinstance(c.func.value, ast.Name) \
+                    and f.self_name is not None and c.func.value.id == f.self_name and f.cls is not None and c.func.attr.startswith("_"):
+                callee = f.cls.lookup(c.func.attr)
+                if callee is not None and callee.qual not in seen and len(seen) < 8:
+                    seen.add(callee.qual)
+                    todo.append(callee)
+                    for r in cycle_loops(callee, ctx):
+                        r["fi"] = callee
+                        recs.append(r)
     for r in recs:
         ok = not r["problems"]
-        res.ob(rule, fi.where(r["loop"]), "%s: for %s in %s" % (fi.short, r["var"], r["range"]), ok,
+        rf = r.get("fi", fi)
+        res.ob(rule, rf.where(r["loop"]), "%s: for %s in %s" % (rf.short, r["var"], r["range"]), ok,
                "full range with wrap-around successor (%s)" % r["idiom"] if ok else "; ".join(r["problems"]))
         if not ok:
-            res.violation(rule, fi, r["loop"], "the loop over the vertex cycle in %s does not close the cycle: %s" % (
-                fi.short, "; ".join(r["problems"])), construct="%s: cycle loop over %s" % (fi.short, r["var"]))
+            res.violation(rule, rf, r["loop"], "the loop over the vertex cycle in %s does not close the cycle: %s" % (
+                rf.short, "; ".join(r["problems"])), construct="%s: cycle loop over %s" % (rf.short, r["var"]))
     return len(recs)
